@@ -8,6 +8,8 @@ from sa import framework
 import sa.rules as rp
 for m in pkgutil.iter_modules(rp.__path__):
     importlib.import_module(f"sa.rules.{m.name}")
+from sa import tags
+tags.apply(framework.RULES)
 rs = sorted(framework.RULES, key=lambda r: (int(r['id'][1:3]), r['id']))
 rt = ["| rule | properties | floor | clause |", "|---|---|---|---|"]
 for r in rs:
